@@ -182,6 +182,9 @@ def shard(ctx):
 
     prof = StreamProfile(knobs_fn=knobs, script_len=ctx.params["script_len"], op_weights=weights(), templates=config_template)
     prof.template_prob = 0.5
+    from ..templates import t_config_flow, t_config_loop, t_config_arg, t_config_first_iter, t_config_callees
+
+    prof.rotation = [t_config_flow, t_config_loop, t_config_arg, t_config_first_iter, t_config_callees]
     run_stream(ctx, prof, [eq, CallEqvMonitor(ctx, eq)])
 
 
